@@ -35,8 +35,6 @@ pub mod asm {
     use crate::*;
     pub use defs::*;
     verus! {
-    #[verifier::external_body]
-    pub struct Ruledef { _p: u8 }
     pub mod defs {
         use vstd::prelude::*;
         use crate::*;
@@ -96,6 +94,37 @@ pub mod asm {
             ensures lead(pat, 4) == n
         {
             lemma_lead_step(pat, 0); lemma_lead_step(pat, 1); lemma_lead_step(pat, 2); lemma_lead_step(pat, 3);
+        }
+        /// C08: the rule (d, r) is among the candidates filed under its own key
+        pub open spec fn rule_filed(m: &RuledefMap, ruledefs: &DefList<Ruledef>, d: int, r: int) -> bool {
+            forall|k: RuledefMapPrefix| k@ =~= rule_key((ruledefs.defs@[d]->0).rules@[r].pattern@) ==>
+                (#[trigger] m.bucket(k)).contains(RuledefMapEntry { ruledef_ref: util::ItemRef::<Ruledef>(d as usize, core::marker::PhantomData), rule_ref: util::ItemRef::<Rule>(r as usize, core::marker::PhantomData) })
+        }
+        /// every entry of `a` is still in `b` (buckets only grow)
+        pub open spec fn buckets_grow(a: &RuledefMap, b: &RuledefMap) -> bool {
+            forall|k: RuledefMapPrefix, e: RuledefMapEntry| (#[trigger] a.bucket(k).contains(e)) ==> b.bucket(k).contains(e)
+        }
+        /// one insertion keeps what was there (bucket k either unchanged or extended by one entry)
+        pub open spec fn buckets_step(a: &RuledefMap, b: &RuledefMap, k: RuledefMapPrefix) -> bool {
+            forall|e: RuledefMapEntry| (#[trigger] a.bucket(k).contains(e)) ==> b.bucket(k).contains(e)
+        }
+        pub proof fn lemma_filed_mono(a: &RuledefMap, b: &RuledefMap, ruledefs: &DefList<Ruledef>, d: int, r: int)
+            requires rule_filed(a, ruledefs, d, r), buckets_grow(a, b)
+            ensures rule_filed(b, ruledefs, d, r)
+        {
+            let e = RuledefMapEntry { ruledef_ref: util::ItemRef::<Ruledef>(d as usize, core::marker::PhantomData), rule_ref: util::ItemRef::<Rule>(r as usize, core::marker::PhantomData) };
+            assert forall|k: RuledefMapPrefix| k@ =~= rule_key((ruledefs.defs@[d]->0).rules@[r].pattern@) implies (#[trigger] b.bucket(k)).contains(e) by {
+                assert(a.bucket(k).contains(e));
+            }
+        }
+        pub proof fn lemma_push_contains(s: Seq<RuledefMapEntry>, x: RuledefMapEntry)
+            ensures s.push(x).contains(x), forall|e: RuledefMapEntry| s.contains(e) ==> #[trigger] s.push(x).contains(e)
+        {
+            assert(s.push(x)[s.len() as int] == x);
+            assert forall|e: RuledefMapEntry| s.contains(e) implies #[trigger] s.push(x).contains(e) by {
+                let i = choose|i: int| 0 <= i < s.len() && s[i] == e;
+                assert(s.push(x)[i] == e);
+            }
         }
         //@@ITEMS defs
     }
